@@ -245,10 +245,25 @@ def inline_new_constants(tree, rel):
 
     def visit_Name(self, x):
       if isinstance(x.ctx, ast.Load) and x.id in consts and x.id not in self.shadow[-1] \
-          and len(self.shadow) > 1:
+          and (len(self.shadow) > 1 or self.module_value):
         done[0] += 1
         return ast.copy_location(copy.deepcopy(consts[x.id]), x)
       return x
+
+    module_value = False
+
+    def visit_Assign(self, a):
+      # the value of a *later* module-level assignment may be built from the
+      # private tables (`TABLE = _PART_A + _PART_B`)
+      if len(self.shadow) == 1 and not (len(a.targets) == 1 and isinstance(
+          a.targets[0], ast.Name) and a.targets[0].id in consts):
+        self.module_value = True
+        try:
+          a.value = self.visit(a.value)
+        finally:
+          self.module_value = False
+        return a
+      return self.generic_visit(a)
   R().visit(tree)
   ast.fix_missing_locations(tree)
   return done[0]
@@ -495,6 +510,15 @@ def _tail_ok(stmts):
     return _tail_ok(last.body) and _tail_ok(last.orelse)
   if isinstance(last, (ast.With,)):
     return _tail_ok(last.body)
+  if isinstance(last, ast.Try):
+    # try: ... return A / except E: ... return B   (the value is computed inside
+    # the protected region either way)
+    if any(_has(x, ast.Return) for x in last.finalbody):
+      return False
+    if last.orelse and _has(ast.Module(body=last.body, type_ignores=[]), ast.Return):
+      return False
+    return _tail_ok(last.body) and all(_tail_ok(h.body) for h in last.handlers) and \
+        _tail_ok(last.orelse)
   return not _has(last, ast.Return)
 
 
@@ -1033,6 +1057,14 @@ def _expand(fn, call, is_method, how, target, line):
     if isinstance(last, ast.With):
       last.body = tail(last.body)
       return stmts
+    if isinstance(last, ast.Try) and _has(last, ast.Return):
+      if last.orelse:
+        last.orelse = tail(last.orelse)
+      else:
+        last.body = tail(last.body)
+      for h_ in last.handlers:
+        h_.body = tail(h_.body)
+      return stmts
     # falls off the end: the call evaluates to None
     if how == 'assign':
       return stmts + [ast.Assign(targets=copy.deepcopy(target), value=ast.Constant(None))]
@@ -1526,6 +1558,15 @@ class _Idioms(ast.NodeTransformer):
         new = ast.Assign(targets=n.body[0].targets, value=ast.Call(
             func=g.func, args=list(g.args) + [n.orelse[0].value], keywords=[]))
         return ast.fix_missing_locations(ast.copy_location(new, n))
+    return n
+
+  def visit_BinOp(self, n):
+    self.generic_visit(n)
+    # (a, b) + (c,)  ==  (a, b, c)
+    if isinstance(n.op, ast.Add) and isinstance(n.left, ast.Tuple) and isinstance(
+        n.right, ast.Tuple) and isinstance(n.left.ctx, ast.Load) and not any(
+            isinstance(x, ast.Starred) for x in n.left.elts + n.right.elts):
+      return ast.copy_location(ast.Tuple(elts=n.left.elts + n.right.elts, ctx=ast.Load()), n)
     return n
 
   def visit_IfExp(self, n):
